@@ -13,7 +13,7 @@ set_option autoImplicit false
 
 namespace MatTotal
 
-/-- **good statistics of a runtime tensor**: finite (float32 / float64, `min` and `max` of one shape, magnitudes within
+/-- **good statistics of a runtime tensor**: finite (float32 / float64 / `exact`, `min` and `max` of one shape, magnitudes within
     `NumT.B = 2^63`) and per-tensor (every dimension of the arrays is 1: what `calibrate()` records, `keepdims=True`) -/
 structure StatGood (mn mx : FArr) : Prop where
   fin : StatFin mn mx
